@@ -257,6 +257,21 @@ def xlsStyles (formats : List (Nat × List Char)) (xfs : List Nat) : Res (List C
   | .panic m => .panic m
   | .outOfFuel => .outOfFuel
 
+/-! ## the spelling of a `numFmtId` attribute (`src/xlsx/mod.rs`, `format_id`, fix 6b28a55) -/
+
+def isDigitByte (b : UInt8) : Bool := 48 ≤ b.toNat && b.toNat ≤ 57
+
+/-- `format_id(v)`: an all-digit id loses its leading zeros (one digit of an all-zero id is kept); an empty text or a
+    text that is not all ASCII digits is returned unchanged -/
+def formatId (v : List UInt8) : List UInt8 :=
+  if v.isEmpty || !v.all isDigitByte then v
+  else v.drop (min (v.takeWhile (· == 48)).length (v.length - 1))
+
+/-- `read_styles` on the attribute texts as they stand in the file: the `<numFmt>` key on insert, the `<xf>` id at
+    the lookup and at the built-in table all go through `format_id` -/
+def xlsxStylesRaw (numFmts : List (List UInt8 × List Char)) (xfs : List (Option (List UInt8))) : Res (List CellFormat) :=
+  xlsxStyles (numFmts.map fun d => (formatId d.1, d.2)) (xfs.map (Option.map formatId))
+
 /-! ## the style index of an xlsx cell (`src/xlsx/cells_reader.rs`, `read_v`) -/
 
 /-- `atoi_simd::parse::<usize>(text)` on a 64-bit target: a non-empty run of ASCII digits (no sign, no blanks) whose
